@@ -204,6 +204,9 @@ impl Property for C05 {
                 if k >= case.sels.len() {
                     return Err(HarnessError("C05 case: missing selector AST".into()));
                 }
+                if h.selector() != Some(case.sels[k].css().as_str()) {
+                    return Err(HarnessError("C05 case: selector AST does not print to the handler's selector".into()));
+                }
                 sel_of.push(Some(&case.sels[k]));
                 k += 1;
             } else {
